@@ -10,12 +10,20 @@ LEVELS = {
     'C08': 'proof',
     'C07': 'other',
     'C13': 'proof',
+    'C01': 'proof',
 }
 EXPLAIN = {
     'C07': 'Mixed: deductive (all real values at bounded sizes) for aligned_source/alignment_error/rejection on every alignment class, translation and affine recovery + optimality certificates, 2-D rotation orthogonality / built-from-svd / never-a-reflection, PWA vertex, per-triangle affine and edge-continuity clauses; bounded run-time contracts (seeded, never counted as proved) for 3-D rotations, similarity and uniform-scale recovery/size/optimality against an independent Kabsch reference. coverage.obligations/discharged count the deductive part, coverage.bounded_cases the stand-ins.',
 }
 NOT_CLAIMED = {}
 CLAIMS = {
+    'C01': dict(
+        engine='symnp (E2)',
+        design_ref='DESIGN.md §6 C01',
+        technique='contract-based deductive verification: registration contract out[q] = Sample(src, T_ret(q)), T_ret(landmarks_out) = landmarks_src, mask warped by the same mapping, on the real ops with symbolic parameters; sampler and mask warp through dependency/callee contracts; real-dtype behaviour by a bounded run-time contract',
+        text='warp_to_shape (affine, projective, opaque map; Image/MaskedImage 2-D/3-D, BooleanImage), rescale (3 rounding modes, 2-D/3-D), resize, zoom, mirror, rotate and transform_about_centre with retained shape, rescale_to_diagonal, warp_to_mask: pixels, landmarks and mask registered w.r.t. the returned transform for all real parameter values; crop_to_*/pyramid proved equal to the op they delegate to. Shape-growing rotations, rescale_to_pointcloud / landmarks range, gaussian_pyramid and all dtypes: bounded stand-in through the real scipy (bit-identical resampling at T(grid)).',
+        note='Small images (3x4, 2x3x2), result sides concretised within the stated parameter ranges; interpolation error is not part of the claim; sampler contract assumed; BooleanImage.warp_to_shape as callee contract for the mask; one recorded known finding (scale*len == 1).',
+    ),
     'C13': dict(
         engine='symnp (E2)',
         design_ref='DESIGN.md §6 C13',
